@@ -445,6 +445,33 @@ func runCase(cs *caseT) ([]map[string]interface{}, error) {
 		case "STATUS":
 			_, err := cl.Status(arg, &imap.StatusOptions{NumMessages: true}).Wait()
 			done <- statusOf(err)
+		case "SELECT":
+			_, err := cl.Select(arg, nil).Wait()
+			done <- statusOf(err)
+		case "DELETE":
+			done <- statusOf(cl.Delete(arg).Wait())
+		case "SUBSCRIBE":
+			done <- statusOf(cl.Subscribe(arg).Wait())
+		case "COPY":
+			var set imap.SeqSet
+			set.AddNum(1)
+			_, err := cl.Copy(set, arg).Wait()
+			done <- statusOf(err)
+		case "SEARCHHEADER":
+			_, err := cl.Search(&imap.SearchCriteria{Header: []imap.SearchCriteriaHeaderField{{Key: "Subject", Value: arg}}}, nil).Wait()
+			done <- statusOf(err)
+		case "SORTTEXT":
+			_, err := cl.Sort(&imapclient.SortOptions{SearchCriteria: &imap.SearchCriteria{Text: []string{arg}},
+				SortCriteria: []imapclient.SortCriterion{{Key: imapclient.SortKeyDate}}}).Wait()
+			done <- statusOf(err)
+		case "SETMETADATA":
+			v := []byte(arg)
+			done <- statusOf(cl.SetMetadata("mb", map[string]*[]byte{"/private/comment": &v}).Wait())
+		case "SETQUOTA":
+			done <- statusOf(cl.SetQuota(arg, map[imap.QuotaResourceType]int64{imap.QuotaResourceStorage: 10}).Wait())
+		case "GETQUOTAROOT":
+			_, err := cl.GetQuotaRoot(arg).Wait()
+			done <- statusOf(err)
 		case "APPEND":
 			chunks := map[string][]int{"small": {10}, "at": {4096}, "over": {4097}, "split": {3, 7}, "bigsplit": {16, 6000}}[cs.Case.Class]
 			size := 0
